@@ -192,6 +192,8 @@ def check_plain(ctx, tokens, base):
             m = misc.incremental_expansion(list(tokens), finalize=False)
             re = apply_markers(m, base)
             exp = ref_set(tokens, base)
+            if "*" not in tokens and any(not x.startswith("-") and ("-" + x) in m for x in m):
+                ctx.violation("unfinalized:contradictory-markers", case, f"marker set {sorted(m)} holds a flag and its negation (result depends on set order)")
             if "*" not in tokens and re != exp:
                 ctx.violation(f"unfinalized:{_diffclass(tokens, re, exp)}", case, f"markers {sorted(m)} applied to base give {sorted(re)} expected {sorted(exp)}")
         # ---- optimize_incrementals
@@ -426,7 +428,7 @@ def lic_case():
     toks = st.lists(lic_token(), min_size=0, max_size=10)
     inc = st.sampled_from(["-", "-@", "@"])
     # about one stream in eight carries an incomplete negation at a random position
-    toks = st.tuples(toks, inc, st.integers(0, 10), st.integers(0, 7)).map(
+    toks = st.tuples(toks, inc, st.integers(0, 10), st.sampled_from(range(8))).map(
         lambda t: t[0] if t[3] else t[0][: t[2]] + [t[1]] + t[0][t[2]:]
     )
     return st.tuples(toks, st.sets(st.sampled_from(LIC), min_size=0, max_size=3))
@@ -449,13 +451,11 @@ def plan(tier, seed):
     t = []
     if tier == "quick":
         for i in range(4):
-            t.append({"task": "exhaustive", "maxlen": 4, "slice": i, "nslices": 4})
-        for i in range(4):
-            t.append({"task": "plain", "examples": 3000})
-        for i in range(5):
             t.append({"task": "license", "worlds": 12, "examples": 400})
-        for i in range(2):
-            t.append({"task": "collapsed", "examples": 3000})
+            t.append({"task": "plain", "examples": 3000})
+            t.append({"task": "exhaustive", "maxlen": 4, "slice": i, "nslices": 4})
+            if i < 2:
+                t.append({"task": "collapsed", "examples": 3000})
     else:
         for i in range(16):
             t.append({"task": "exhaustive", "maxlen": 6, "slice": i, "nslices": 16})
